@@ -64,9 +64,24 @@ def _controlled_subcircuit(rng, qs):
     k1, k2 = rng.choice([("a", "a"), ("a", "b"), ("b", "a"), ("b", "b")])
     g1, g2 = rng.choice([cirq.X, cirq.Y ** 0.5]), rng.choice([cirq.H, cirq.T])
     with_c = rng.random() < 0.5
-    inner = cirq.FrozenCircuit(g1(qs[1]).with_classical_controls(k1), g2(qs[2]))
-    body_ops = [cirq.Moment(cirq.X(qs[0]) ** 0.5), cirq.Moment(cirq.measure(qs[0], key="a")), cirq.Moment(cirq.X(qs[2]) ** 0.5), cirq.Moment(cirq.measure(qs[2], key="b")),
-                cirq.CircuitOperation(inner).with_classical_controls(k2)]
+    # the form of each condition: plain key, an explicit record index, masked comparisons (one of them the NEGATION of "bit set")
+    f1, f2 = rng.choice(["plain", "plain", "first", "mask", "not-mask"]), rng.choice(["plain", "plain", "first", "mask", "not-mask"])
+    twice = "first" in (f1, f2)  # key a is then measured twice, so that "the first record" differs from "the latest"
+
+    def cond(form, key):
+        key = key if isinstance(key, cirq.MeasurementKey) else cirq.MeasurementKey(key)
+        if form == "first":
+            return cirq.KeyCondition(key, index=0)
+        if form == "mask":
+            return cirq.BitMaskKeyCondition(key, bitmask=1, target_value=1, equal_target=True)
+        if form == "not-mask":
+            return cirq.BitMaskKeyCondition(key, bitmask=1, target_value=1, equal_target=False)
+        return cirq.KeyCondition(key)
+
+    again = [cirq.Moment(cirq.X(qs[0]) ** 0.5), cirq.Moment(cirq.measure(qs[0], key="a"))] if twice else []
+    inner = cirq.FrozenCircuit(g1(qs[1]).with_classical_controls(cond(f1, k1)), g2(qs[2]))
+    body_ops = [cirq.Moment(cirq.X(qs[0]) ** 0.5), cirq.Moment(cirq.measure(qs[0], key="a")), *again, cirq.Moment(cirq.X(qs[2]) ** 0.5), cirq.Moment(cirq.measure(qs[2], key="b")),
+                cirq.CircuitOperation(inner).with_classical_controls(cond(f2, k2))]
     if with_c:
         body_ops.append(cirq.Moment(cirq.measure(qs[1], key="c")))
     op = cirq.CircuitOperation(cirq.FrozenCircuit(body_ops))
@@ -82,8 +97,9 @@ def _controlled_subcircuit(rng, qs):
     flat = []
     for pre in prefixes:
         K = lambda x: cirq.MeasurementKey(name=kmap.get(x, x), path=(pre,) if pre else ())
-        flat += [cirq.X(qs[0]) ** 0.5, cirq.measure(qs[0], key=K("a")), cirq.X(qs[2]) ** 0.5, cirq.measure(qs[2], key=K("b")),
-                 g1(qs[1]).with_classical_controls(K(k1), K(k2)), g2(qs[2]).with_classical_controls(K(k2))]
+        flat += [cirq.X(qs[0]) ** 0.5, cirq.measure(qs[0], key=K("a"))] + ([cirq.X(qs[0]) ** 0.5, cirq.measure(qs[0], key=K("a"))] if twice else [])
+        flat += [cirq.X(qs[2]) ** 0.5, cirq.measure(qs[2], key=K("b")),
+                 g1(qs[1]).with_classical_controls(cond(f1, K(k1)), cond(f2, K(k2))), g2(qs[2]).with_classical_controls(cond(f2, K(k2)))]
         if with_c:
             flat.append(cirq.measure(qs[1], key=K("c")))
     return op, cirq.Circuit(flat, strategy=cirq.InsertStrategy.NEW)
@@ -95,7 +111,7 @@ def standin_subcircuits(tier, seed):
     rng = random.Random(seed)
     cases, fails, distinct = 0, [], set()
     qs = list(cirq.LineQubit.range(3))
-    for it in range(80 if tier == "quick" else 2000):
+    for it in range(300 if tier == "quick" else 2500):
         inner = _inner(rng, qs)
         try:
             expected_flat = None
